@@ -24,7 +24,7 @@ def _solve(i, rlimit=None):
         try:
             m = s.model()
             model = '; '.join('%s = %s' % (d, m[d]) for d in sorted(m.decls(), key=str)
-                              if d.arity() == 0 and '!' not in str(d) and len(str(m[d])) < 80)[:2000]
+                              if d.arity() == 0 and '!' not in str(d) and len(str(m[d])) < 80)[:4000]
         except Exception as ex: model = 'model unavailable: %s' % ex
     elif r == z3.unknown:
         model = s.reason_unknown()
@@ -52,6 +52,9 @@ def discharge(vcs, jobs=None):
                 for r in pool.map(_solve, hard, chunksize=1): res[r[0]] = (r[0], r[1], r[2] + res[r[0]][2], r[3])
     for i, (_, r, t, m) in res.items():
         vcs[i].result = r; vcs[i].time = t; vcs[i].model = m
+        if r == 'sat' and m:
+            try: vcs[i].model_dict = dict(x.split(' = ', 1) for x in m.split('; ') if ' = ' in x)
+            except Exception: vcs[i].model_dict = None
     return vcs
 
 
